@@ -356,7 +356,10 @@ def grid(ctx, observer=None):
         base_op = {'path': path, 'attr': attr, 'parent': path, 'field': attr}
         for n, idx, k in slicegrid.grid(ctx.thorough):
             text = mk(n)
-            one(text, {'k': 'setitem', 'kind': 'rep-setslice', 'idx': idx, 'val': {'t': 'list', 'items': [val(i) for i in range(k)]}, **base_op})
+            gi = getattr(grid, '_i', 0) + 1
+            grid._i = gi
+            one(text, {'k': 'setitem', 'kind': 'rep-setslice', 'idx': idx,
+                       'val': {'t': 'list', 'items': [val(i) for i in range(k)], 'as': ('list', 'gen', 'tuple', 'iter')[gi % 4]}, **base_op})
             if k == 0:
                 one(text, {'k': 'delitem', 'kind': 'rep-delslice', 'idx': idx, **base_op})
         for n in range(0, 4):
